@@ -391,7 +391,8 @@ def family_fanout(rng, count, max_oracle=2):
                 for _ in range(2):
                     if rng.random() < 0.6:
                         cc = add('compound', y)
-                        grp = [add('basic', cc)]
+                        # sometimes a (nested) final state: entering it must not end the completion of the other regions
+                        grp = [add('final' if rng.random() < 0.25 else 'basic', cc)]
                         if rng.random() < 0.7:
                             grp.append(add('basic', cc))
                     else:
@@ -429,10 +430,16 @@ def family_fanout(rng, count, max_oracle=2):
                 trans.append(mk_trans(m[s], m[rng.choice(tgs)], rng.choice([1, 1, 2, 2]), 0, 'oracle' if guarded else 'none',
                                       act=desc(incx=rng.choice([0, 1]))))
             for grp in ys[reg][1]:          # moves inside one region of the nested orthogonal state
+                if len(grp) == 2 and kind[grp[0] - 1] == 'final':
+                    if rng.random() < 0.7:
+                        trans.append(mk_trans(m[grp[1]], m[grp[0]], rng.choice([1, 2])))
+                    continue
                 if len(grp) == 2 and rng.random() < 0.7:
                     trans.append(mk_trans(m[grp[0]], m[grp[1]], 2))
                     trans.append(mk_trans(m[grp[1]], m[grp[0]], rng.choice([1, 2])))
             for s in deep:
+                if kind[s - 1] == 'final':
+                    continue
                 if rng.random() < 0.6:
                     trans.append(mk_trans(m[s], m[rng.choice(plain)], 2))
                 if rng.random() < 0.5:      # also: one region leaves the nested orthogonal state while its sibling moves
